@@ -45,6 +45,11 @@ GRAMMARS = {
     'const': "start: 'a' `1` c:`x{c}` | '1' ^`warn {x}` x:'+' | '.' ^^`two` ;\n",
     'join': "start: '+'%{@int}+ | '.'.{'a'} 'e' ;\n",
     'dot': "start: /./ /./ [/./] $ ;\n",
+    # repetitions over bodies that can match the empty string: every iteration must make progress
+    'nullable-closure': "start: {['+']} '.' ;\n",
+    'nullable-closure-pattern': "start: {/a?/} {[@int]}+ '.' ;\n",
+    'nullable-join': "start: '.'%{['+']} 'e' | '.'.{/a?/}+ '1' ;\n",
+    'nullable-rule-closure': "start: {n}+ '.' | {$->} 'e' ;\n\nn: ['a'] ['+'] ;\n",
 }
 # grammars whose whitespace pattern can match the empty string
 WS_GRAMMARS = {
